@@ -567,7 +567,8 @@ class C04(Oracle):
         judged_exact = False
         if not in_domain:
             vals = None     # outside the core domain only stickiness and propagation are judged
-        if sto.arith is not None and st.extra.get('arith_route') == 'np' and st.dest is not None:
+        if sto.arith is not None and st.extra.get('arith_route') == 'np' and \
+                (st.dest is not None or st.extra.get('np_two_stage')):
             # NumPy route into config.array_op_out is two-stage: the library first builds the
             # ordinary result object (which carries the flags of the exact result) and then stores
             # THAT into the register, so the register's own write has the intermediate as input
